@@ -28,6 +28,7 @@ func (r *Reader) ReadMetadata() (err error) {
 		if logLevelInfo() {
 			logInfo().Object("box", b).Send()
 		}
+		err = b.close()
 	}
 	if err != nil && logLevelError() {
 		logError().Object("box", b).Err(err).Send()
